@@ -3,7 +3,12 @@
    action allows leads to a valuation of the winning region (last iterate of
    solve_rabin_game); hence every state reached from a winning one is winning.
    First for arbitrary iterate lists with the structure [rounds_ok]
-   (RabinIter1), then for the lists the generated solver returns. *)
+   (RabinIter1), then for the lists the generated solver returns.
+   For the rho_1 steps that leave an environment dead end (level 0, towards
+   the EMPTY basin; the repair of finding F3) there is nothing to show: in
+   none of them does the environment keep its action
+   (RabinClosure1.ca_false_breaks_env; they are absent from the
+   classification rabin_step_kinds on which this proof rests). *)
 From Coq Require Import List Bool Arith Lia.
 Import ListNotations.
 From Omega Require Import L4.Arena L4.ArenaFacts L4.Kleene L4.AlgOrder L4.GameSpec.
